@@ -8,6 +8,7 @@ import (
 	"math/rand"
 	"os"
 	"sort"
+	"strings"
 	"time"
 
 	"vh/abs"
@@ -138,7 +139,7 @@ func cmdRecordSession(args []string) error {
 					if _, ok := dump[t].(map[string]interface{})[u]; !ok {
 						continue // the marker was rejected or garbage collected: try another table
 					}
-					barrier = c.WaitMarker(u, 10*time.Second)
+					barrier = c.WaitMarker(u, 5*time.Second)
 					landed = true
 					break
 				}
@@ -286,6 +287,15 @@ func cmdReplaySession(args []string) error {
 		}
 	}
 	defer closeAll()
+	// recording handlers as in the recorded run (an "events" event lists one callback log per handler)
+	handlersOf := map[int]int{}
+	for _, e := range evs {
+		if e["ev"] == "events" {
+			if hs, ok := e["handlers"].([]interface{}); ok {
+				handlersOf[int(e["cli"].(float64))] = len(hs)
+			}
+		}
+	}
 	client := func(id int) (*recsess.Client, error) {
 		if c, ok := clients[id]; ok {
 			return c, nil
@@ -294,12 +304,42 @@ func cmdReplaySession(args []string) error {
 		if err != nil {
 			return nil, err
 		}
+		if n := handlersOf[id]; n > 0 {
+			c.AddHandlers(n)
+		}
 		clients[id] = c
 		return c, nil
 	}
 	for i := 0; i < len(evs); i++ {
 		e := evs[i]
 		switch e["ev"] {
+		case "events":
+			c, err := client(int(e["cli"].(float64)))
+			if err != nil {
+				return err
+			}
+			// the marker row is the single insert of the nearest transaction before
+			barrier := false
+			for j := i - 1; j >= 0; j-- {
+				if evs[j]["ev"] != "txn" {
+					continue
+				}
+				ops, err := decodeOps(evs[j]["ops"])
+				if err != nil {
+					return err
+				}
+				if len(ops) == 1 && ops[0].Op == "insert" && strings.HasPrefix(ops[0].UUID, "u9") {
+					barrier = c.WaitMarker(ops[0].UUID, 5*time.Second)
+				}
+				break
+			}
+			ev, err := c.EventsEvent(0, barrier)
+			if err != nil {
+				return err
+			}
+			if err := rec.Emit(ev); err != nil {
+				return err
+			}
 		case "reset":
 			closeAll()
 			in, err = rectxn.NewInst(0, b, tok, true, dir)
